@@ -157,6 +157,12 @@ def run(ctx):
         lines.append(gen_odd(rng))
         meta.append(('odd', None, None, 0))
     m, im = ctx.both(lines)
+    if im and all(x.startswith('SKIP:') for x in im):
+        # the mock origins need port 80 on loopback (Client::parse_url reaches no other port); without that right the
+        # correspondence of the client clause cannot run - the theorems still do. Not a violation of the property.
+        ctx.count('client correspondence skipped: ' + im[0][5:], len(im))
+        ctx.extra['client_correspondence'] = 'skipped: ' + im[0][5:]
+        return
     for line, me, a, b in zip(lines, meta, m, im):
         b = norm_impl(b)
         if me is None:
